@@ -242,10 +242,15 @@ void vk_run_case(vk::Choice& c) {
   sc.producers = (int)c.upto(3); sc.per_producer = 1 + (int)c.upto(3);
   sc.timers = c.chance(1, 4) ? 1 + (int)c.upto(2) : 0;
   if (c.chance(1, 3)) { sc.fault_which = (long)c.upto(2); sc.fault_nth = (long)c.upto(6); int e = (int)c.upto(4); sc.fault_err = e == 0 ? EIO : e == 1 ? ENOMEM : e == 2 ? EINTR : -1; }
-  // (decoded last so that byte strings recorded before the timer group existed keep their meaning)
-  if (c.chance(1, 3)) sc.timers = 1 + (int)c.upto(4);
-  for (int k = 0; k < sc.timers; ++k) sc.timer_us[k] = (int)c.upto(8) * 60;
-  if (sc.timers) { int nst = (int)c.upto(4); for (int k = 0; k < nst; ++k) sc.timer_stops.push_back({(int)c.upto(4), (int)c.upto(10)}); }
+  // the timer group is derived from the hash of everything decoded so far instead of consuming bytes: byte strings recorded before
+  // the group existed keep both their script and their schedule (the schedule is decoded from the bytes that follow the script)
+  {
+    uint64_t r = c.h * 0x9e3779b97f4a7c15ull + 0x632be59bd9b4e019ull;
+    auto nextr = [&](uint32_t k) { r ^= r >> 30; r *= 0xbf58476d1ce4e5b9ull; r ^= r >> 27; r *= 0x94d049bb133111ebull; r ^= r >> 31; return (uint32_t)(r % k); };
+    if (sc.timers == 0 && nextr(3) == 0) sc.timers = 0; else if (nextr(3) == 0) sc.timers = 1 + (int)nextr(4);
+    for (int k = 0; k < sc.timers; ++k) sc.timer_us[k] = (int)nextr(8) * 60;
+    if (sc.timers) { int nst = (int)nextr(4); for (int k = 0; k < nst; ++k) sc.timer_stops.push_back({(int)nextr(4), (int)nextr(10)}); }
+  }
   cx.desc = "chunks={"; for (int x : sc.chunks) cx.desc += vk::sfmt("%d ", x); cx.desc += "} bufs={"; for (int x : sc.bufs) cx.desc += vk::sfmt("%d ", x);
   cx.desc += "} stops={"; for (auto& s : sc.stops) cx.desc += vk::sfmt("read%d@%d ", s.first, s.second);
   cx.desc += vk::sfmt("} producers=%dx%d timers=%d(stops=%zu) fault=%s#%ld:%ld", sc.producers, sc.per_producer, sc.timers, sc.timer_stops.size(), sc.fault_which < 0 ? "none" : sc.fault_which == 0 ? "readv" : "writev", sc.fault_nth, sc.fault_err);
